@@ -75,6 +75,33 @@ pub fn linemeasure_case(cx: &mut Ctx, n: u64, case: &Value) {
             chk("line_distance_from_start", format!("Line::point_at_distance_from_start({})", r * total), guard(|| Some(l.point_at_distance_from_start(&Euclidean, r * total))), ws);
             chk("line_distance_from_end", format!("Line::point_at_distance_from_end({})", r * total), guard(|| Some(l.point_at_distance_from_end(&Euclidean, r * total))), we);
         }
+        // the same line scaled exactly by a power of two (tiny and huge magnitudes: an absolute epsilon shows here): ratio forms,
+        // distance forms and the round trip through line_locate_point scale along
+        for sc in [2f64.powi(-40), 2f64.powi(-80), 2f64.powi(60)] {
+            let lss = LineString::new(cs.iter().map(|c| Coord { x: c.x * sc, y: c.y * sc }).collect());
+            let (wss, wes) = (Coord { x: ws.x * sc, y: ws.y * sc }, Coord { x: we.x * sc, y: we.y * sc });
+            let tols = tol * sc;
+            let mut chks = |sub: &str, what: String, got: Result<Option<Point<f64>>, String>, want: Coord<f64>| match got {
+                Ok(p) if close(p, want, tols) => cx.ok(sub),
+                other => cx.bad("C15", sub, case, json!({"what": what, "scale": sc, "got": format!("{other:?}"), "want": [want.x, want.y]})),
+            };
+            chks("scaled_ratio_from_start", format!("scaled line: point_at_ratio_from_start({r})"), guard(|| lss.point_at_ratio_from_start(&Euclidean, r)), wss);
+            chks("scaled_ratio_from_end", format!("scaled line: point_at_ratio_from_end({r})"), guard(|| lss.point_at_ratio_from_end(&Euclidean, r)), wes);
+            chks("scaled_distance_from_start", format!("scaled line: point_at_distance_from_start({})", r * total * sc), guard(|| lss.point_at_distance_from_start(&Euclidean, r * total * sc)), wss);
+            chks("scaled_legacy_line_interpolate_point", format!("scaled line: line_interpolate_point({r})"), guard(|| lss.line_interpolate_point(r)), wss);
+            if case["simple"].as_bool().unwrap() && total > 0.0 && (0.0..=1.0).contains(&r) && !(cs[0] == cs[cs.len() - 1] && (r == 0.0 || r == 1.0)) {
+                match guard(|| lss.line_locate_point(&Point(wss))) {
+                    Ok(Some(f)) if (f - r).abs() <= 1e-9 => cx.ok("scaled_locate_round_trip"),
+                    other => cx.bad("C15", "scaled_locate_round_trip", case, json!({"what": format!("scaled line: line_locate_point(point_at({r}))"), "scale": sc, "got": format!("{other:?}"), "want": r})),
+                }
+                if cs.len() == 2 {
+                    match guard(|| Line::new(lss.0[0], lss.0[1]).line_locate_point(&Point(wss))) {
+                        Ok(Some(f)) if (f - r).abs() <= 1e-9 => cx.ok("scaled_locate_round_trip"),
+                        other => cx.bad("C15", "scaled_locate_round_trip", case, json!({"what": format!("scaled Line: line_locate_point(point_at({r}))"), "scale": sc, "got": format!("{other:?}"), "want": r})),
+                    }
+                }
+            }
+        }
         // round trip through line_locate_point on simple lines
         if case["simple"].as_bool().unwrap() && total > 0.0 && (0.0..=1.0).contains(&r) && !(cs[0] == cs[cs.len() - 1] && (r == 0.0 || r == 1.0)) {
             let back = guard(|| ls.line_locate_point(&Point(ws)));
